@@ -198,28 +198,15 @@ func encodeAndSplitGSM7Packed(content string, frameKey byte) ([][]byte, datacodi
 		return [][]byte{gsm7encoding.Pack(contentBytes)}, dataCoding, nil
 	}
 
-	perMsgLength := datacoding.SplitBy153
-	msgCount := ceil(len(contentBytes), perMsgLength)
+	// Cut into chunks of at most 153 septets first: moving an escape character into the
+	// next part can make one part more than ceil(n/153), so the number of parts is only
+	// known afterwards.
+	payloads := splitUnits(contentBytes, datacoding.SplitBy153, cutBeforeGSM7Escape)
+	msgCount := len(payloads)
 	res := make([][]byte, 0, msgCount)
-
-	begin, end := 0, perMsgLength
-	for idx := 0; idx < msgCount; idx++ {
-		if end > len(contentBytes) {
-			end = len(contentBytes)
-		}
-		if begin >= end {
-			continue
-		}
-
-		// Boundary case: When the last byte of a non-final part happens to be the indicator for an extended character,
-		// cutting at this point would split these two bytes.
-		// To avoid this scenario, the preceding part should pack one byte less, ensuring that 0x1b is placed within the next byte.
-		if idx != msgCount-1 && contentBytes[end-1] == gsm7encoding.EscapeSequence {
-			end--
-		}
-
+	for idx, payload := range payloads {
 		// append UDHI
-		contentByte := make([]byte, 0, (end-begin)+datacoding.UDHILength)
+		contentByte := make([]byte, 0, len(payload)+datacoding.UDHILength)
 		contentByte = append(contentByte, longMsgHeader6ByteFrameKey)
 		contentByte = append(contentByte, longMsgHeader6ByteFrameTotal)
 		contentByte = append(contentByte, longMsgHeader6ByteFrameNum)
@@ -228,16 +215,43 @@ func encodeAndSplitGSM7Packed(content string, frameKey byte) ([][]byte, datacodi
 		contentByte = append(contentByte, byte(idx+1))    // num
 
 		// pack
-		packed := gsm7encoding.Pack(contentBytes[begin:end])
-		contentByte = append(contentByte, packed...)
+		contentByte = append(contentByte, gsm7encoding.Pack(payload)...)
 
 		res = append(res, contentByte)
-
-		begin = end
-		end += perMsgLength
 	}
 
 	return res, dataCoding, nil
+}
+
+// cutFunc returns where the part that starts at begin may end: the largest offset
+// not beyond end (and beyond begin) that does not fall inside a character.
+type cutFunc func(data []byte, begin, end int) int
+
+// cutBeforeGSM7Escape keeps an escape character (0x1B) and the code that follows it in
+// the same part: when the last unit of a part would be the escape character, the part
+// ends one unit earlier.
+func cutBeforeGSM7Escape(data []byte, begin, end int) int {
+	if end-1 > begin && data[end-1] == gsm7encoding.EscapeSequence {
+		return end - 1
+	}
+	return end
+}
+
+// splitUnits cuts data into consecutive chunks of at most perMsgLength units until
+// everything is consumed. cut may shorten a chunk that is followed by more data.
+func splitUnits(data []byte, perMsgLength int, cut cutFunc) [][]byte {
+	chunks := make([][]byte, 0, ceil(len(data), perMsgLength)+1)
+	for begin := 0; begin < len(data); {
+		end := begin + perMsgLength
+		if end >= len(data) {
+			end = len(data)
+		} else if cut != nil {
+			end = cut(data, begin, end)
+		}
+		chunks = append(chunks, data[begin:end])
+		begin = end
+	}
+	return chunks
 }
 
 // splitWithUDHI splits the long message according to perMsgLength and adds a 6-byte header for concatenated SMS.
